@@ -88,6 +88,10 @@ pub fn run(seed: u64, ntraces: usize) {
         // directed schedules (every 8th trace): cancel while the dispatch is in flight, then the call fails
         if t % 8 == 0 { queue = vec![("cmd", 0, 0, 0), ("jump", 0, 0, 0), ("exec", 0, 0, 0), ("cmd", 0, 1, 0), ("deliver_fail", 0, 0, 0), ("callback", 0, 0, 0), ("exec", 0, 0, 0)]; }
         if t % 8 == 1 { queue = vec![("cmd", 1, 2, 0), ("exec", 1, 1, 0), ("cmd", 1, 3, 0), ("deliver_fail", 0, 0, 0), ("callback", 0, 0, 0), ("exec", 1, 1, 0)]; }
+        // ... then (same traces): ONE proposal scheduled AND approved for the operator; a user dispatches it on the time-lock path with 11 TOK attached, the operator on the operator path with
+        // 7 EGLD attached, BOTH are in flight at once, both calls fail: each dispatcher is credited with its own payment (callbacks in either order), then withdrawals
+        if t % 8 == 1 { queue.extend(vec![("cmd", 6, 0, 0), ("cmd", 6, 2, 0), ("jump", 6, 0, 0), ("exec", 6, 2, 2), ("exec", 6, 1, 1), ("deliver_fail", 0, 0, 0), ("deliver_fail", 0, 0, 0),
+                                          ("callback", 0, 0, 0), ("callback", 0, 0, 0), ("refund", 0, 0, 0), ("refund", 0, 0, 0)]); }
         // the operator role moves while an operator dispatch with a payment attached is in flight, then the call fails: the credit belongs to the dispatcher
         if t % 8 == 2 { queue = vec![("cmd", 1, 2, 0), ("exec", 1, 1, 2), ("xfer_op", 0, 0, 0), ("deliver_fail", 0, 0, 0), ("callback", 0, 0, 0), ("refund", 0, 0, 0), ("refund", 0, 0, 0)]; }
         // a credit of 7 EGLD, then a successful dispatch pays 5 of the contract's 7 away: the withdrawal of the credit cannot be honoured in full and must fail, keeping the credit
